@@ -94,7 +94,7 @@ def mk_bigmap(e, n, m):
             e.assume(r.e != k.e)
         for r2 in rs[:i]:
             e.assume(r.e != r2.e)
-    vals = [T.StringType(f'v{i}') for i in range(n)]
+    vals = [T.StringType('' if i % 2 == 0 else f'v{i}') for i in range(n)]     # falsy stored values included
     on_chain = e.bool('on_chain').e
     ctx = GCtx(on_chain)
     bm = Obj(cls)
@@ -221,12 +221,12 @@ def native(case):
         def get_big_map_value(self, ptr, key_hash):
             return {'string': chain[hash_to_key[key_hash]]} if hash_to_key.get(key_hash) in chain else None
     cls = T.BigMapType.create_type(args=[T.IntType, T.StringType])
-    bm = cls(items=[(T.IntType(k), T.StringType(f'v{i}')) for i, k in enumerate(ks)], ptr=7, removed_keys=[T.IntType(r) for r in rs])
+    bm = cls(items=[(T.IntType(k), T.StringType('' if i % 2 == 0 else f'v{i}')) for i, k in enumerate(ks)], ptr=7, removed_keys=[T.IntType(r) for r in rs])
     bm.context = Ctx()
     hash_to_key = {bm.get_key_hash(k): k for k in set(ks) | set(rs) | {x}}
     view = dict(chain)
     view.update({r: None for r in rs})
-    view.update({k: f'v{i}' for i, k in enumerate(ks)})
+    view.update({k: ('' if i % 2 == 0 else f'v{i}') for i, k in enumerate(ks)})
     if case['op'] == 'get':
         g = bm.get(T.IntType(x), dup=False)
         return (str(g) if g is not None else None) != view.get(x), f'get {x} on local {ks} removed {rs} chain {chain}: {g!r}, view says {view.get(x)!r}'
